@@ -9,7 +9,7 @@ RULE = ("the real TaskPool (cfg window) with tasks that start and then do not fi
         "bursts of 1..8 dispatches after the workers went idle, explored against ALL interleavings of the extracted pool model "
         "(the implementation's counters and started-task count must be one of the model's outcomes); bursts of 16, 64, 200 and "
         "two-phase scripts judged by the oracle (every dispatched task has started while none has finished; no task runs twice; "
-        "thread counter = live threads); and the full server: N in {1,4,5,16,64,300 (thorough: 400 TCP, 1200)} keep-alive connections opened at once over Unix (also behind connections that were accepted earlier and have not sent a byte) "
+        "thread counter = live threads); and the full server: N in {1,4,5,16,64,300 (thorough: 400 TCP, 1200)} keep-alive connections opened at once over Unix (also behind connections that were accepted earlier and have not sent a byte, and next to connections whose clients do not read a 64 MiB answer) "
         "and TCP, each must be answered while all stay open; non-trivial = burst > number of idle workers or N > 4")
 ASSUMPTIONS = ["an awake thread is eventually scheduled (observation waits until nothing changes for 100 ms)",
                "the process's file-descriptor limit (raised to the hard limit by the harness) exceeds twice the number of connections plus the baseline"]
@@ -45,6 +45,11 @@ def gen(tier, rng):
     for n, k in ((3, 1), (6, 2), (5, 6)):
         yield "bs u %d 2 silent=%d" % (n, k), {"server_burst": n, "silent": k}
     yield "bs t 4 2 silent=1", {"server_burst": 4, "silent": 1}
+    # HTTP/1.0 clients answered with responses of undeclared length (the library gathers such a body first), while other
+    # such connections are stalled: their 64 MiB answers are never read by their clients
+    yield "bs u 5 2 v10=1", {"server_burst": 5, "variant": "http10-undeclared"}
+    yield "bs u 4 2 v10=1 stall=1", {"server_burst": 4, "variant": "stalled-writer"}
+    yield "bs t 3 2 v10=1 stall=2", {"server_burst": 3, "variant": "stalled-writer"}
     # far above any plausible built-in limit
     yield "bs u 300 3", {"server_burst": 300}
     if tier != "quick":
